@@ -715,6 +715,20 @@ func MonMargin(rep *report.Report, h MHistory) {
 		if s.Kind != 1 && s.Kind != 3 {
 			continue
 		}
+		// each fund is paid for its own purpose only: with incremental interest payments switched off the interest fund
+		// receives nothing (a liquidation's cut goes to the force-close fund), and without a liquidation or an
+		// administrator's close with the fund payment the force-close fund receives nothing
+		if s.Pre.Params.IncrFund != s.Pre.Params.FcFund && s.Pre.Params.IncrFund == s.Post.Params.IncrFund && s.Pre.Params.FcFund == s.Post.Params.FcFund {
+			fcDue := s.Kind == 3 || (s.Kind == 1 && s.Tag == 3 && s.TakeFund)
+			for d := int64(0); d < nd; d++ {
+				if !s.Pre.Params.Incr && delta(s.Pre.Params.IncrFund, d).Sign() != 0 && s.Pre.Params.IncrFund != s.Signer {
+					rep.Violate("C13/fund/interest-fund-paid-without-interest-payments/"+kind, fmt.Sprintf("incremental interest payments are off, yet the interest fund's balance of denom %d moved by %s", d, delta(s.Pre.Params.IncrFund, d)), h.replay(s.StepNo))
+				}
+				if !fcDue && delta(s.Pre.Params.FcFund, d).Sign() != 0 && s.Pre.Params.FcFund != s.Signer {
+					rep.Violate("C13/fund/force-close-fund-paid-without-forced-close/"+kind, fmt.Sprintf("no forced close in this step, yet the force-close fund's balance of denom %d moved by %s", d, delta(s.Pre.Params.FcFund, d)), h.replay(s.StepNo))
+				}
+			}
+		}
 		// positions that disappeared / appeared
 		var gone, born []env.MTP
 		for _, m := range s.Pre.MTPs {
